@@ -3,8 +3,12 @@ C17 — State machines run their declared transitions to the terminal state.
 
 Statements are about the model of Model/Fsm.lean (`invoke`, `run`, `stepArms`,
 `firstGuard`, `validate`), for all machines, arguments, step limits and run lengths.
+Last section: the control skeleton of `execute_fsm_pipe_impl` and of the validation pass, regenerated from the
+source on every run (Gen/FsmSkeleton.lean), run with the model's leaf operations, is `run` / `stepArms` / `validate`.
 -/
 import MechVerif.Model.Fsm
+import MechVerif.Lemmas.FsmSkeleton
+import MechVerif.Gen.FsmSkeleton
 namespace MechVerif.Fsm
 open MechVerif.Arms
 
@@ -464,4 +468,142 @@ theorem C17_starts_in_start_state (m : Machine) (k : Nat) (args : List V) (r : R
                 · simp only [Except.ok.injEq] at h; rw [hr, h]
                 · cases h
 
+/-! ### the runner and the validation pass as written
+
+`Gen.FsmSkeleton.runner : FsmIR.Stmt` is `execute_fsm_pipe_impl` read statement by statement by tools/extract_fsm.py
+(step loop `0..max_steps`, loop over the arms, clone / clear / match on the clone, guard loop, `apply_transitions`,
+`break` / `continue` / `return`, the limit error), `Gen.FsmSkeleton.validator` what `validate_fsm_state_coverage`
+collects and looks up.  `FsmIR.runSkeleton` / `FsmIR.runValidator` give them their meaning with the leaf operations
+as parameters; `FsmIR.modelOps` are the model's leaves (`clearVars`, `matchPs`, `evalS`, `applyTarget`). -/
+
+open MechVerif.FsmIR in
+/-- The runner as written, on any list of `FsmArm`s (comments included), any state, environment and limit, returns
+    what the model's `run` returns on the arms that are not comments: the value of an output arm, the state it halts
+    in, the limit error after `max_steps` turns, a guard or evaluation error. -/
+theorem C17_runner_as_written_is_run (sarms : List MArm) (k : Nat) (s : StateV) (env : Env) :
+    runSkeleton modelOps Gen.FsmSkeleton.runner k sarms s env =
+      some (Except.map ofResult (run (sarms.filterMap armOf) k s env)) := by
+  rw [Gen.FsmSkeleton.C17_runner_as_written]
+  exact runSkeleton_expected sarms k s env
+
+open MechVerif.FsmIR in
+theorem armOf_sarmOf (a : Arm) : armOf (sarmOf a) = some a := by
+  obtain ⟨n, ps, b⟩ := a
+  cases b with
+  | direct t => rfl
+  | guarded gs =>
+    simp only [sarmOf, armOf, List.map_map, Option.some.injEq, Arm.mk.injEq, Body.guarded.injEq, true_and]
+    induction gs with
+    | nil => rfl
+    | cons g gs ih => simp only [List.map_cons, ih]; rfl
+
+open MechVerif.FsmIR in
+/-- … in particular on every machine of the model -/
+theorem C17_runner_as_written_on_model (arms : List Arm) (k : Nat) (s : StateV) (env : Env) :
+    runSkeleton modelOps Gen.FsmSkeleton.runner k (arms.map sarmOf) s env = some (Except.map ofResult (run arms k s env)) := by
+  rw [C17_runner_as_written_is_run]
+  have : (arms.map sarmOf).filterMap armOf = arms := by
+    induction arms with
+    | nil => rfl
+    | cons a l ih => simp only [List.map_cons, List.filterMap_cons, armOf_sarmOf, ih]
+  rw [this]
+
+open MechVerif.FsmIR in
+/-- One scan of the arms as written (clone before clear, clear and match on the clone, guards in order, nothing written
+    back) started with the flag down ends as the model's `stepArms` says: error, output, no arm applied (flag still
+    down, state and shared environment untouched), or moved (flag up, new state, shared environment untouched). -/
+theorem C17_arm_scan_as_written_is_stepArms (n : Nat) (arms l : List MArm) (σ : MS) (ht : σ.transitioned = some false) :
+    StepSpec (stepArms σ.state σ.callEnv (l.filterMap armOf)) σ.state σ.callEnv
+      (iter (armDispatch (exec modelOps n arms Stmt.cont) (exec modelOps n arms transitionArm) (exec modelOps n arms guardArm)) l σ) :=
+  arms_loop n arms l σ σ.state σ.callEnv rfl rfl ht
+
+open MechVerif.FsmIR in
+/-- The validation pass as written accepts exactly the machines `validate` accepts. -/
+theorem C17_validator_as_written_is_validate (m : Machine) :
+    runValidator Gen.FsmSkeleton.validator FErr.undefinedState (m.arms.map varmOf) (some m.declared) (some m.start.1) =
+      validate m := by
+  rw [Gen.FsmSkeleton.C17_validator_as_written]
+  exact runValidator_expected m
+
+open MechVerif.FsmIR in
+/-- So the theorems above hold of the runner as written; e.g. it returns a value exactly when, within the limit, its
+    moves reach a state whose step is an output arm -/
+theorem C17_run_value_as_written (arms : List Arm) (k : Nat) (s : StateV) (env : Env) (v : S) :
+    runSkeleton modelOps Gen.FsmSkeleton.runner k (arms.map sarmOf) s env = some (.ok (.value v)) ↔
+      ∃ j, j < k ∧ ∃ s' env' env'', Reaches arms j (s, env) (s', env') ∧ stepArms s' env' arms = .ok (.out v env'') := by
+  rw [C17_runner_as_written_on_model, ← C17_run_value]
+  cases run arms k s env with
+  | error e => simp [Except.map]
+  | ok r => cases r <;> simp [Except.map, ofResult]
+
+open MechVerif.FsmIR in
+/-- … and a machine that keeps moving is stopped by the runner as written with the limit error after exactly `k` turns -/
+theorem C17_limit_stops_as_written (arms : List Arm) (k : Nat) (s : StateV) (env : Env)
+    (h : ∀ j, j < k → ∃ s' env' s'' env'', Reaches arms j (s, env) (s', env') ∧ stepArms s' env' arms = .ok (.moved s'' env'')) :
+    runSkeleton modelOps Gen.FsmSkeleton.runner k (arms.map sarmOf) s env = some (.error .limit) := by
+  rw [C17_runner_as_written_on_model, C17_limit_stops arms k s env h]
+  rfl
+
+/-! ### the seeded changes have another meaning
+
+The changes the tie is meant to catch are not merely other text: run on a small machine each gives another result
+than the accepted skeleton (so `exec` tells them apart, and `decide` in Gen/FsmSkeleton.lean fails for a reason). -/
+section mutants
+open MechVerif.FsmIR MechVerif.Arms Stmt
+
+def runnerWith (range : Range) (tArm gArm : Stmt) : Stmt :=
+  seq (forSteps range (seq (setB .transitioned false) (seq (forArms cont tArm gArm) (ite (.not (.var .transitioned)) returnState skip)))) failLimit
+
+theorem runnerWith_expected : runnerWith .exclusive transitionArm guardArm = expectedRunner := rfl
+
+def stA : StateV := ⟨"A", []⟩
+
+/-- `0..=max_steps`: with limit 0 a turn is still made -/
+theorem C17_mutant_inclusive_bound :
+    runSkeleton modelOps (runnerWith .inclusive transitionArm guardArm) 0 [] stA [] = some (.ok (.state stA)) ∧
+    runSkeleton modelOps expectedRunner 0 [] stA [] = some (.error .limit) := ⟨rfl, rfl⟩
+
+/-- a guarded arm without a guard that holds, then a direct arm for the same state -/
+def fallArms : List MArm := [.guard ("A", []) [], .transition ("A", []) (.output (.lit (.bool true)))]
+
+/-- `break` instead of falling through after a guarded arm whose guards all fail: the later arm is not tried -/
+theorem C17_mutant_guards_fail_stops :
+    runSkeleton modelOps (runnerWith .exclusive transitionArm
+        (withPrologue (seq (ite (.not (.var .matched)) cont skip) (seq (forGuards guardBody) brk)))) 1 fallArms stA [] =
+      some (.ok (.state stA)) ∧
+    runSkeleton modelOps expectedRunner 1 fallArms stA [] = some (.ok (.value (.bool true))) := ⟨rfl, rfl⟩
+
+/-- `A(x) -> B`, `B => x` -/
+def leakArms : List MArm :=
+  [.transition ("A", [.sp (.bind 0)]) (.next "B" []), .transition ("B", []) (.output (.var 0))]
+
+/-- `*call_env = arm_env` after the transitions: what `A`'s pattern bound is visible in `B` -/
+theorem C17_mutant_write_back :
+    runSkeleton modelOps (runnerWith .exclusive
+        (withPrologue (ite (.var .matched) (seq (apply .arm .arm) (seq (assign .call .arm) (seq returnIfOut (seq (setB .transitioned true) brk)))) skip))
+        guardArm) 5 leakArms ⟨"A", [.sc (.num .u64 5)]⟩ [] = some (.ok (.value (.num .u64 5))) ∧
+    runSkeleton modelOps expectedRunner 5 leakArms ⟨"A", [.sc (.num .u64 5)]⟩ [] = some (.error (.eval .undef)) := ⟨rfl, rfl⟩
+
+/-- `B(x) -> B`, `A => x` with `x` an input -/
+def shadowArms : List MArm :=
+  [.transition ("B", [.sp (.bind 0)]) (.next "B" []), .transition ("A", []) (.output (.var 0))]
+
+/-- `clear_pattern_bindings(pattern, call_env)` before the clone: scanning past an arm whose pattern names an input
+    loses the input -/
+theorem C17_mutant_clear_before_clone :
+    runSkeleton modelOps (runnerWith .exclusive
+        (seq (clear .call) (seq (clone .call) (seq (matchPat .arm) (ite (.var .matched) (taken .arm) skip))))
+        guardArm) 5 shadowArms stA [(0, .sc (.num .u64 7))] = some (.error (.eval .undef)) ∧
+    runSkeleton modelOps expectedRunner 5 shadowArms stA [(0, .sc (.num .u64 7))] = some (.ok (.value (.num .u64 7))) := ⟨rfl, rfl⟩
+
+/-- an arm whose second guard goes to a state without an arm -/
+def badSecondGuard : List VArm := [.guard (some "A") [[(.next, some "A")], [(.next, some "Z")]]]
+
+/-- only the first guard's transitions validated: the undefined target of the second guard is accepted -/
+theorem C17_mutant_first_guard_validated :
+    runValidator { expectedValidator with checks := [.declared .all, .start, .targets .all .first .all] }
+        FErr.undefinedState badSecondGuard (some []) (some "A") = .ok () ∧
+    runValidator expectedValidator FErr.undefinedState badSecondGuard (some []) (some "A") = .error .undefinedState := ⟨rfl, rfl⟩
+
+end mutants
 end MechVerif.Fsm
